@@ -658,7 +658,9 @@ ExecStmt(s, st, P) ==
                          ELSE Elifs(k + 1, ck.st) IN
               Elifs(1, c.st)
     [] s.k = "setidx" ->        \* xs[i] = e / d[k] = e on a variable: the value, then the index; the element is replaced / the key inserted
-         LET v == EvalE(s.e, st, P) IN
+         \* (xs[i] <op>= e is xs[i] = xs[i] <op> e, as the parser desugars it)
+         LET v == EvalE(IF s.op = "" THEN s.e
+                        ELSE [k |-> "bin", op |-> s.op, l |-> [k |-> "index", obj |-> [k |-> "ident", name |-> s.name], idx |-> s.idx], r |-> s.e], st, P) IN
          IF ~v.ok THEN ErrSt(st, v)
          ELSE LET i == EvalE(s.idx, v.st, P) IN
               IF ~i.ok THEN ErrSt(st, i)
